@@ -9,13 +9,15 @@ SRC=$1; NAME=$2; WT=/tmp/seedc/$NAME
 LIBS="-lsqlite3 -lm $(pkg-config --libs icu-uc icu-io icu-i18n)"
 rm -rf $WT; git -C /repo worktree prune; mkdir -p /tmp/seedc
 git -C /repo worktree add -q --detach $WT HEAD || exit 2
-cd $WT && ./configure -q >/dev/null 2>&1 && make -j8 >/dev/null 2>&1 || { echo "$NAME: clean build failed"; exit 2; }
+mkar() { rm -f $WT/src/.libs/libcif.a; ar rcs $WT/src/.libs/libcif.a $WT/src/.libs/*.o; }   # the checkout builds the shared library only
+cd $WT && ./configure -q >/dev/null 2>&1 && make -j8 >/dev/null 2>&1 && mkar || { echo "$NAME: clean build failed"; exit 2; }
 sed "s#/tmp/seed/[A-Za-z0-9_]*#$WT#g" $SRC/demo.c > $WT/demo.c
 gcc -g -w -I$WT/src -I$WT demo.c $WT/src/.libs/libcif.a $LIBS -o demo_clean 2>demo_build.log || { echo "$NAME: demo does not compile"; cat demo_build.log | head; exit 2; }
 timeout 120 ./demo_clean > demo_clean.out 2>&1; RC_CLEAN=$?
 git apply $SRC/patch.diff || { echo "$NAME: patch does not apply to HEAD"; exit 2; }
-make -j8 >/dev/null 2>&1 || { echo "$NAME: changed tree does not compile"; exit 2; }
+make -j8 >/dev/null 2>&1 && mkar || { echo "$NAME: changed tree does not compile"; exit 2; }
 SUITE=$(make -k check 2>&1 | grep -E "^# (PASS|FAIL)" | tr -d '\n ')
+mkar
 gcc -g -w -I$WT/src -I$WT demo.c $WT/src/.libs/libcif.a $LIBS -o demo_mut 2>/dev/null
 timeout 120 ./demo_mut > demo_mut.out 2>&1; RC_MUT=$?
 echo "$NAME: demo clean rc=$RC_CLEAN, demo changed rc=$RC_MUT, suite $SUITE"
